@@ -34,6 +34,7 @@ type bEngine struct {
 	loopAbs    bool
 	allocMax   *big.Int
 	nilable    bool // pointer fields of symbolic inputs have a symbolic nil-ness
+	safetyIndex  bool   // `safety index`: slice index expressions are obligations
 	uptoLoop     bool   // prefix contract: the path ends at the first loop header of the function under contract
 	callbackPure string // non-empty: calls of function values are assumed not to touch polynomial storage (clause `callback`)
 	nilsafe    bool // dereferences of possibly-nil pointers are obligations (nil-deref)
@@ -352,7 +353,7 @@ func (e *bEngine) get(st *bState, fr *bFrame, v ssa.Value) bVal {
 	case *ssa.Const:
 		return bConst(x, e)
 	case *ssa.Function:
-		return bFuncVal{x.String()}
+		return bFuncVal{name: x.String(), fn: x}
 	case *ssa.Global:
 		id := e.reg.idFor("global:" + x.String())
 		if _, ok := st.objs[id]; !ok {
@@ -367,7 +368,7 @@ func (e *bEngine) get(st *bState, fr *bFrame, v ssa.Value) bVal {
 		}
 		return bPtr{obj: id}
 	case *ssa.Builtin:
-		return bFuncVal{x.Name()}
+		return bFuncVal{name: x.Name()}
 	}
 	if val, ok := fr.vals[v]; ok {
 		if s, ok := val.(bScalar); ok {
